@@ -27,7 +27,8 @@ STAGES = {
     "C09": [S("e_seq", "asu", 12000, 400000), S("e_tbb", "asu", 6000, 200000)],
     "C15": [S("e_seq", "asu", 12000, 400000)],
     "C03": [S("e_tbb", "asu", 9000, 300000), S("e_tbb", "tsan", 4000, 120000, gate=False)],
-    "C20": [S("e_tbb", "asu", 4000, 60000)],
+    "C20": [S("e_tbb", "asu", 4000, 60000), S("e_demo_mcb", "asu", 2000, 40000), S("e_demo_approx", "asu", 2000, 40000)],
+    "C11": [S("e_demo_mcb", "asu", 3000, 60000), S("e_demo_approx", "asu", 3000, 60000), S("e_demo_stats", "asu", 1500, 30000), S("e_demo_mpi", "asu", 3000, 60000)],
     "C04": [S("e_mpi", "asu", 8000, 250000)],
     "C10": [S("e_comp", "asu", 20000, 600000)],
     "C12": [S("e_comp", "asu", 8000, 200000)],
@@ -232,7 +233,7 @@ def minimise_and_confirm(prop, cls, stage, viol_file, replay_dir):
     rep = json.load(open(tmp))
     rep["property"] = prop; rep["flavour"] = stage["flavour"]; rep["engine_binary"] = stage["engine"]
     h = rep.get("event_hash", "0")[:12]
-    final = os.path.join(replay_dir, "%s-%s-%s.json" % (prop, re.sub(r"[^A-Za-z0-9]+", "_", cls), h))
+    final = os.path.join(replay_dir, "%s-%s-%s-%s.json" % (prop, re.sub(r"[^A-Za-z0-9]+", "_", cls), stage["engine"][2:], h))
     json.dump(rep, open(final, "w"), indent=1)
     c1, h1, _ = replay_once(stage, final)
     c2, h2, _ = replay_once(stage, final)
